@@ -410,6 +410,12 @@ func (c *core) fastForward(block *hg.Block, frame *hg.Frame) error {
 // already knows as validators, and the Frame must hash to the Block's frame
 // hash.
 func (c *core) checkFastForward(block *hg.Block, frame *hg.Frame) error {
+	// The Frame comes from the network: reject null elements before anything
+	// dereferences them
+	if err := frame.Validate(); err != nil {
+		return err
+	}
+
 	peerSet := peers.NewPeerSet(frame.Peers)
 
 	// Check Block Signatures. The peer-set comes from the response itself, so
